@@ -10,7 +10,7 @@ for ln in open(sys.argv[1]):
 for loc, (nst, cnt) in blocks.items():
     f, rng = loc.split(":")
     f = f.replace("github.com/cloudwego/gopkg/", "")
-    if "/internal/testutils/" in f or f.endswith("_test.go"): continue
+    if "/internal/testutils/" in f or "internal/testutils/" in f or f.endswith("_test.go") or f.startswith("zzharness/") or "verif_state.go" in f: continue
     cov[f][1] += nst
     if cnt > 0: cov[f][0] += nst
     else: unc[f].append(rng)
